@@ -413,8 +413,103 @@ fn drive(b: &mut Batch, r: &mut StdRng, p: &Profile, w: &mut World, n_modes: usi
     }
 }
 
+const SOUP: &[&str] = &[
+    "(", ")", "[", "]", "{", "}", "|", "*", "+", "?", ".", "^", "$", "\\", "-", "&&", "~~", "--", ":", "=", "!", "<", ">", ",",
+    "0", "1", "2", "9", "a", "b", "c", "d", "w", "s", "p", "P", "\\d", "\\w", "\\s", "\\D", "\\p", "\\P", "(?", "(?:", "(?i)", "(?=",
+    "(?!", "(?<", "[^", "[:alpha:]", "[:^digit:]", "\\b", "\\B", "\\A", "\\z", "\\pL", "\\pN", "\\pX", "\\p{Greek}", "\\p{Lowercase}",
+    "\\p{sc=Greek}", "\\P{XID_Start}", "*?", "+?", "??", "{2}", "{1,}", "{1,2}", "{1,2}?", "{,2}", "\\x41", "\\u{41}", "\\n",
+    "\\.", "\\-", "é", "€", "😀", " ", "(?P<n>", "(?x)", "(?-u)", "\\", "#",
+];
+
+fn gen_c15_pattern(r: &mut StdRng) -> String {
+    if r.gen_bool(0.4) {
+        let n = r.gen_range(1..=10);
+        (0..n).map(|_| *SOUP.choose(r).unwrap()).collect()
+    } else {
+        // a structured pattern with a few token-level edits
+        let base = gen_re(r, 3, true);
+        let mut toks: Vec<String> = base.chars().map(|c| c.to_string()).collect();
+        for _ in 0..r.gen_range(0..=2) {
+            let t = SOUP.choose(r).unwrap().to_string();
+            if toks.is_empty() || r.gen_bool(0.5) {
+                let i = r.gen_range(0..=toks.len());
+                toks.insert(i, t);
+            } else if r.gen_bool(0.5) {
+                let i = r.gen_range(0..toks.len());
+                toks[i] = t;
+            } else {
+                let i = r.gen_range(0..toks.len());
+                toks.remove(i);
+            }
+        }
+        toks.concat()
+    }
+}
+
+/// C15: one build of a configuration holding a random pattern string (as pattern or lookahead,
+/// in the first or the second mode). The verdict is left to the specification: the harness only
+/// translates the text into an AST (syntax error / unsupported / open / supported nodes).
+fn record_c15(b: &mut Batch, r: &mut StdRng, trace_id: usize) {
+    let text = gen_c15_pattern(r);
+    let place = r.gen_range(0..4);
+    let good = |p: &str, tt: usize| RealPat { pattern: p.to_string(), tt, la: None };
+    let modes: Vec<RealMode> = match place {
+        0 => vec![RealMode { name: "M0".into(), pats: vec![good("a", 1), RealPat { pattern: text.clone(), tt: 2, la: None }], trans: vec![] }],
+        1 => vec![
+            RealMode { name: "M0".into(), pats: vec![good("a", 1)], trans: vec![(1, 1)] },
+            RealMode { name: "M1".into(), pats: vec![RealPat { pattern: text.clone(), tt: 2, la: None }, good("b", 3)], trans: vec![] },
+        ],
+        2 => vec![RealMode { name: "M0".into(), pats: vec![RealPat { pattern: "a".into(), tt: 1, la: Some((true, text.clone())) }, good("b", 2)], trans: vec![] }],
+        _ => vec![
+            RealMode { name: "M0".into(), pats: vec![good("a", 1)], trans: vec![] },
+            RealMode { name: "M1".into(), pats: vec![RealPat { pattern: "b".into(), tt: 3, la: Some((false, text.clone())) }], trans: vec![] },
+        ],
+    };
+    // specification-side configuration: ASTs only, leaves carry no atoms (nothing is scanned)
+    let spec = crate::model::CfgSpec {
+        modes: modes
+            .iter()
+            .map(|m| crate::model::ModeSpec {
+                name: m.name.clone(),
+                pats: m.pats.iter().map(|p| crate::model::PatSpec { re: parse_pattern(&p.pattern), tt: p.tt, la: p.la.as_ref().map(|(pos, l)| (*pos, parse_pattern(l))) }).collect(),
+                trans: m.trans.clone(),
+            })
+            .collect(),
+        simple: false,
+    };
+    let first_event = b.events.len() + 1;
+    b.cfgs.push(cfg_to_json(&spec));
+    let ci = b.cfgs.len();
+    b.events.push(json!({"op": "reset", "trace": trace_id}));
+    let sm = crate::parse::to_scanner_modes(&modes);
+    let cached = r.gen_bool(0.5);
+    let built = std::panic::catch_unwind(std::panic::AssertUnwindSafe(|| {
+        let bld = scnr::ScannerBuilder::new().add_scanner_modes(&sm);
+        if cached { bld.build().map(|_| ()) } else { bld.build_uncached().map(|_| ()) }
+    }));
+    match built {
+        Err(e) => b.events.push(json!({"op": "panic", "during": "build", "msg": crate::exec::panic_msg(e)})),
+        Ok(res) => b.events.push(json!({"op": "build", "cfg": ci, "cached": cached, "ok": res.is_ok(),
+            "err": res.err().map(|e| e.to_string()).unwrap_or_default()})),
+    }
+    b.meta.push(json!({"trace": trace_id, "first_event": first_event, "last_event": b.events.len(),
+        "modes": describe_modes(&modes), "inputs": []}));
+}
+
 /// `record <profile> <n traces> <seed> <out dir>`
 pub fn main(args: &[String]) -> i32 {
+    if args[0] == "c15" {
+        let n: usize = args[1].parse().unwrap();
+        let seed: u64 = args[2].parse().unwrap();
+        let mut r = StdRng::seed_from_u64(seed ^ 0xc15);
+        let mut b = Batch::new();
+        for t in 0..n {
+            record_c15(&mut b, &mut r, t + 1);
+        }
+        b.write(&args[3]);
+        println!("{}", json!({"traces": n, "events": b.events.len(), "cfgs": b.cfgs.len(), "inputs": b.inputs.len()}));
+        return 0;
+    }
     let p = profile(&args[0]);
     let n: usize = args[1].parse().unwrap();
     let seed: u64 = args[2].parse().unwrap();
